@@ -15,6 +15,7 @@ Not decided: regex semantics of `except`, what the appended text contains.
 """
 from .. import walkers, coverage, thir, mir
 from ..thir import callee_of
+from ..peval import none as peval_none
 
 TOKEN = "nodes::token::Token"
 W3 = ["clear_comments", "filter_comments", "clear_whitespaces"]
@@ -576,7 +577,7 @@ def last_token_is_last_written(R, ctx, rid="C18.last-token"):
 
     def local(name, value=None, ty=None):
         t = B.mk(B.TYPED, name=ident(name), token=some(tok(":")) if ty else NONE)
-        t.fields["type"] = some(tname(ty)) if ty else NONE
+        t.fields["type"] = some(tname(ty)) if ty else peval_none()
         toks = make(lib, LAT, {"equal": some(tok("=")) if value else NONE, "variable_commas": [], "value_commas": []})
         for k, v in list(toks.fields.items()):
             if isinstance(v, peval.Struct) and v.adt == T + "Token":
